@@ -641,7 +641,8 @@ class Subscription(BaseSubscription):
                 where.add(subwhere)
             else:
                 where.add("false")
-            if filter_obj.limit:
+            if filter_obj.limit is not None:
+                # limit 0 is a limit (a client that only wants live events), not "no limit"
                 limit = min(filter_obj.limit, self.default_limit)
             new_filters.append(filter_obj)
         if where:
